@@ -1502,6 +1502,37 @@ func (g *gen) randomOp(i int) []string {
 	if g.faults && g.rng.Chance(1, 14) {
 		return g.faultEpisode(i)
 	}
+	if g.rng.Chance(1, 16) {
+		// a burst on ONE key: every write is followed (and preceded) by reads of that key — stale per-key state
+		// (memoized presence / values / roots) shows here
+		k := g.key()
+		read := func() string {
+			switch {
+			case g.flavour[i] != "set" && g.rng.Bool():
+				return fmt.Sprintf("get %d %s", i, k)
+			case g.rng.Chance(1, 4):
+				return fmt.Sprintf("root %d", i)
+			case g.rng.Chance(1, 4):
+				return fmt.Sprintf("size %d", i)
+			}
+
+			return fmt.Sprintf("has %d %s", i, k)
+		}
+		ops := []string{read()}
+		for j, n := 0, g.rng.Range(2, 4); j < n; j++ {
+			if g.rng.Chance(2, 5) {
+				ops = append(ops, g.delOp(i, k))
+			} else {
+				ops = append(ops, g.setOp(i, k, g.val()))
+			}
+			ops = append(ops, read())
+			if g.rng.Chance(1, 3) {
+				ops = append(ops, read())
+			}
+		}
+
+		return ops
+	}
 	switch x := g.rng.Intn(100); {
 	case x < 8 && g.flavour[i] != "set":
 		return []string{g.rmwOp(i, g.key(), hx.Pick(g.rng, rmwBytes))}
